@@ -89,8 +89,8 @@ func c15RunFindings(c *mon.Ctx) {
 
 func runC15(c *mon.Ctx) {
 	c15RunFindings(c)
-	nMod := c.Share(c.Scale(40_000, 2_200_000))
-	nWork := c.Share(c.Scale(16_000, 800_000))
+	nMod := c.Share(c.Scale(120_000, 2_200_000))
+	nWork := c.Share(c.Scale(48_000, 800_000))
 	for i := 0; i < nMod; i++ {
 		c15Session(c, false, fmt.Sprintf("m%d", i))
 	}
